@@ -63,6 +63,8 @@ def kv(s):
 # ---------------- projections compared with the model ----------------
 def proj_impl(k, v):
     t = v.split(" ")
+    if k[0] == "U":
+        return v
     if k[0] == "L":
         kind, verd, rep = t[0], t[1], t[2]
         if verd == "skipped":
@@ -107,8 +109,15 @@ def correspondence(d):
         if k[0] == "A" and a == "nopanic":
             # the model knows only the argument shape: "perr" (handler returns an error before the
             # store is called) must be an error reply; a store-level error is state dependent
-            if m.split(" ")[1] == "perr" and v.split(" ")[1] == "ok":
+            mt, vt = m.split(" "), v.split(" ")
+            if mt[1] == "perr" and vt[1] == "ok":
                 mm.append((k, v, m))
+            elif mt[1] == "perr" and len(mt) > 2 and len(vt) > 2:
+                # ... and its text must start with the fixed prefix the model gives for that error (strconv
+                # prefixes, texts of the error variables read through the hook, the PLSET arity text)
+                want, got = unh(mt[2])[0] if mt[2] != "-" else b"", unh(vt[2])[0] if vt[2] != "-" else b""
+                if not got.startswith(want[:len(got)]) or (len(got) < len(want) and len(got) < 48):
+                    mm.append((k, v, m))
         if k[0] == "L" and a == "prop":
             # what the leader put into the log: the model's proposed command must be the one the
             # harness fed to the replicas (same argument count and bytes, except GEOADD's scores)
@@ -220,8 +229,33 @@ def oracle(d, rc):
     if os.path.exists(jp):
         jl = [l.rstrip("\n") for l in open(jp, errors="replace") if l.strip()]
     ended = bool(jl) and jl[-1].startswith("END")
-    if not ended and rc not in (0, 3):
-        if jl and jl[-1].startswith("HUNG"):
+    if not ended and rc in (-9, 137):
+        notes["run truncated by the wall-clock guard of the check (%d vectors evaluated)" % len(verdict_of)] += 1
+    elif not ended and rc not in (0, 3):
+        if jl and jl[-1].startswith("WATCHDOG"):
+            ph = jl[-1].split("\t")[1] if "\t" in jl[-1] else "?"
+            vid = ph.split(":")[-1]
+            tail = ""
+            lp = os.path.join(d, "server.log")
+            if os.path.exists(lp):
+                txt = open(lp, errors="replace").read()
+                i = txt.find("WATCHDOG")
+                j = txt.find("goroutine 1 ", i)
+                tail = txt[j:j + 2500] if j >= 0 else txt[i:i + 1500]
+            mk("harness-blocked-" + vid, [vid] if vid in vec else [],
+               "the run made no progress for 90 s in phase %s: an engine lock / write batch left open by an earlier command blocks every later write (see the erroring commands in the history)" % ph,
+               extra=dict(trace=tail))
+        elif jl and jl[-1].startswith("STUCK"):
+            vid = jl[-1].split("\t")[1][1:]
+            tail = ""
+            lp = os.path.join(d, "server.log")
+            if os.path.exists(lp):
+                txt = open(lp, errors="replace").read()
+                i = txt.find("APPLY LOOP STUCK")
+                j = txt.find("ApplyRaftRequest", i)
+                tail = txt[max(i, j - 1500):j + 1200] if i >= 0 else ""
+            mk("apply-loop-stuck-" + vid, [vid], "the live node stopped applying committed entries (a probe write was not applied within 45 s); goroutine dump in the harness log", extra=dict(trace=tail))
+        elif jl and jl[-1].startswith("HUNG"):
             where = jl[-1].split("\t")[1]
             vid = where[1:].split(".")[0]
             if where[0] == "X":
@@ -249,7 +283,7 @@ def oracle(d, rc):
     return fails, hist, notes, vec
 
 
-def run_epochs(ctx, jobs, avoid):
+def run_epochs(ctx, jobs, avoid, budget=600):
     """jobs: list of (subdir, args string). Runs the harness processes in parallel, then the model."""
     procs = []
     for sub, args in jobs:
@@ -261,10 +295,12 @@ def run_epochs(ctx, jobs, avoid):
         env.update(vlib.GOENV)
         procs.append((sub, d, cmd, subprocess.Popen(cmd, shell=True, cwd=d, env=env, stdout=subprocess.PIPE, stderr=subprocess.STDOUT)))
     res = []
+    t_end = time.time() + budget
     for sub, d, cmd, p in procs:
         try:
-            out, _ = p.communicate(timeout=3000)
+            out, _ = p.communicate(timeout=max(5, t_end - time.time()))
         except subprocess.TimeoutExpired:
+            # hard cap of the whole batch of jobs: what was written so far is still evaluated
             p.kill()
             out, _ = p.communicate()
         out = out.decode("utf-8", "replace")
@@ -274,7 +310,7 @@ def run_epochs(ctx, jobs, avoid):
             # nothing was sent yet: server start problem (a port taken by an unrelated outgoing
             # connection, slow election): one retry (the harness probes for free ports itself)
             time.sleep(1)
-            rc, out, _ = sh(cmd, cwd=d, timeout=3000)
+            rc, out, _ = sh(cmd, cwd=d, timeout=max(30, t_end - time.time()))
         res.append((sub, d, rc, out))
     mprocs = []
     for sub, d, rc, out in res:
@@ -324,14 +360,14 @@ def run(ctx):
             eng = "mem" if (quick or i % 3 != 2) else "pebble"
             pol = "wait_compact" if i % 2 == 1 else "local_deletion"
             jobs.append(("fresh-%d" % i, "-seed %d -n %d -engine %s -policy %s -port %d%s" % (ctx.seed * 1000 + i, n, eng, pol, pbase + 3 * len(jobs), " -big" if i == 0 else "")))
-    res = run_epochs(ctx, jobs, avoid)
+    res = run_epochs(ctx, jobs, avoid, budget=(420 if quick else 2400))
 
     all_mism, all_fail, total = [], [], 0
     hist_all, notes_all = collections.Counter(), collections.Counter()
     distinct = set()
     samples = []
     for sub, d, rc, out in res:
-        if rc not in (0, 1, 4) and not os.path.exists(os.path.join(d, "journal.txt")):
+        if rc not in (0, 1, 4, 5, 6, -9, 137) and not os.path.exists(os.path.join(d, "journal.txt")):
             log("HARNESS RUN FAILED (%s rc=%s):\n%s" % (sub, rc, out[-2000:]))
             raise SystemExit(2)
         if rc == 3 or (rc == 2 and os.path.getsize(os.path.join(d, "journal.txt")) == 0):
@@ -364,7 +400,7 @@ def run(ctx):
                                 apply_v1=impl.get("A" + vid + ".1"), apply_v2=impl.get("A" + vid + ".2")))
 
     def search():
-        r2 = run_epochs(ctx, [("search-%d" % i, "-seed %d -n 30000 -port %d" % (ctx.seed * 1000 + 500 + i, pbase + 300 + 3 * i)) for i in range(4)], avoid)
+        r2 = run_epochs(ctx, [("search-%d" % i, "-seed %d -n 12000 -port %d" % (ctx.seed * 1000 + 500 + i, pbase + 300 + 3 * i)) for i in range(4)], avoid, budget=420)
         out = []
         for sub, d, rc, o in r2:
             f, _, _, _ = oracle(d, rc)
